@@ -74,6 +74,13 @@ _MOD = None
 def _init_worker(modname):
     global _MOD
     os.environ.setdefault("OMP_NUM_THREADS", "1")
+    try:  # a mutated tree must not be able to take the machine down
+        import resource
+
+        lim = int(os.environ.get("VERIF_WORKER_MEM_GB", "6")) * (1 << 30)
+        resource.setrlimit(resource.RLIMIT_AS, (lim, lim))
+    except Exception:
+        pass
     from mc import extshim
 
     extshim.install()
@@ -183,8 +190,18 @@ def run_check(modname, tier, seed):
     shard_walls = []
     ctx = mp.get_context("fork")
     nproc = min(NPROC, max(1, len(jobs)))
-    with ctx.Pool(nproc, initializer=_init_worker, initargs=(modname,)) as pool:
-        for out in pool.imap_unordered(_work, jobs, chunksize=1):
+    import concurrent.futures as cf
+
+    with cf.ProcessPoolExecutor(nproc, mp_context=ctx, initializer=_init_worker, initargs=(modname,)) as pool:
+        futs = [pool.submit(_work, j) for j in jobs]
+        for fut in cf.as_completed(futs):
+            try:
+                out = fut.result()
+            except Exception as e:  # a worker died (killed, out of memory, segfault): never hang, never guess
+                errors.append("worker failure: %r" % (e,))
+                for f in futs:
+                    f.cancel()
+                break
             if out["error"]:
                 errors.append(out["error"])
                 continue
